@@ -577,6 +577,26 @@ pub fn find_item<'a>(file: &'a syn::File, sel: &[String]) -> Result<Found<'a>, S
     }
 }
 
+/// functions defined in a source file: name -> [(owner type or "", returns Result)]
+fn local_fn_table(src: &Src) -> BTreeMap<String, Vec<(String, bool)>> {
+    let mut t: BTreeMap<String, Vec<(String, bool)>> = BTreeMap::new();
+    for it in &src.file.items {
+        match it {
+            syn::Item::Fn(f) => t.entry(f.sig.ident.to_string()).or_default().push((String::new(), skel::returns_result(src, &f.sig))),
+            syn::Item::Impl(im) if im.trait_.is_none() => {
+                let ty = type_name(&im.self_ty);
+                for ii in &im.items {
+                    if let syn::ImplItem::Fn(f) = ii {
+                        t.entry(f.sig.ident.to_string()).or_default().push((ty.clone(), skel::returns_result(src, &f.sig)));
+                    }
+                }
+            }
+            _ => {}
+        }
+    }
+    t
+}
+
 fn apply_edits(src: &Src, range: (usize, usize), mut edits: Vec<Edit>) -> Result<Vec<(String, Option<usize>, Option<String>)>, String> {
     // returns output lines with (text, source line, label)
     edits.retain(|e| e.start >= range.0 && e.end <= range.1);
@@ -880,6 +900,7 @@ fn do_extract(args: &BTreeMap<String, String>) -> Result<(), String> {
     let mut cur_src: Option<String> = None;
     let mut em = Emitter { lines: vec![], rules: BTreeMap::new(), functions: vec![], trusted: vec![], missing_anchors: vec![], unknown_calls: vec![] };
     let mut unit = String::new();
+    let mut auto_queue: Vec<(String, String, String)> = Vec::new();
     let mut method_rewrites: Vec<(String, String, bool)> = Vec::new();
     let mut path_rewrites: Vec<(String, String)> = Vec::new();
     // ---- L2 pre-pass: registry of skeletonised functions ("Type::fn" -> (skeleton name, returns Result))
@@ -1004,7 +1025,13 @@ fn do_extract(args: &BTreeMap<String, String>) -> Result<(), String> {
                     }
                     let drop_self = match &take.drop_self { Some(t) => Some(registry.get(t).map(|x| x.0.clone()).ok_or(format!("drop-self target {} not a skeleton", t))?), None => None };
                     let exit_marker = cfg.exit_markers.iter().find(|(k, _)| *k == key).map(|(_, e)| e.clone());
-                    let so = skel::skeleton_of(src, &cfg, &registry, &self_ty, &skname, sig, block, invs, drop_self, exit_marker)?;
+                    let local_fns = local_fn_table(src);
+                    let so = skel::skeleton_of(src, &cfg, &registry, &self_ty, &skname, sig, block, invs, drop_self, exit_marker, &local_fns)?;
+                    for (t, n) in so.auto_requests.iter() {
+                        if !auto_queue.iter().any(|(a, b, c): &(String, String, String)| *a == sp && b == t && c == n) {
+                            auto_queue.push((sp.clone(), t.clone(), n.clone()));
+                        }
+                    }
                     let sl = src.line_of(src.range(block).0);
                     let fdisp = key.clone();
                     let first_line = em.lines.len() + 1;
@@ -1194,6 +1221,45 @@ fn do_extract(args: &BTreeMap<String, String>) -> Result<(), String> {
                 }));
             }
         }
+    }
+    // ---- helper functions called by skeletons but not registered: skeletonised without a contract ----
+    let mut done_auto: Vec<(String, String, String)> = Vec::new();
+    let mut auto_lines: Vec<OutLine> = Vec::new();
+    let mut auto_funcs: Vec<serde_json::Value> = Vec::new();
+    while let Some((sp, ty, name)) = auto_queue.pop() {
+        if done_auto.contains(&(sp.clone(), ty.clone(), name.clone())) { continue; }
+        done_auto.push((sp.clone(), ty.clone(), name.clone()));
+        let src = &srcs[&sp];
+        let sel: Vec<String> = if ty.is_empty() { vec!["fn".into(), name.clone()] } else { vec!["impl".into(), ty.clone(), "fn".into(), name.clone()] };
+        let found = match find_item(&src.file, &sel) { Ok(f) => f, Err(_) => continue };
+        let (sig, block): (&syn::Signature, &syn::Block) = match &found {
+            Found::ImplFn(_, f) => (&f.sig, &f.block),
+            Found::Item(syn::Item::Fn(f)) => (&f.sig, &*f.block),
+            _ => continue,
+        };
+        let skname = if ty.is_empty() { format!("sk_auto_{}", name) } else { format!("sk_auto_{}_{}", ty, name) };
+        let local_fns = local_fn_table(src);
+        let so = skel::skeleton_of(src, &skel_cfg, &registry, &ty, &skname, sig, block, BTreeMap::new(), None, None, &local_fns)?;
+        for (t, n) in so.auto_requests.iter() { auto_queue.push((sp.clone(), t.clone(), n.clone())); }
+        let retres = skel::returns_result(src, sig);
+        let sl = src.line_of(src.range(block).0);
+        let fdisp = format!("auto:{}{}{}", ty, if ty.is_empty() { "" } else { "::" }, name);
+        let f0 = 0usize;
+        let _ = f0;
+        auto_lines.push(OutLine { text: format!("// skeleton of {} ({}:{}) — called by a skeleton, not under contract: no ensures (callers learn nothing)", fdisp, sp, sl), src: Some((sp.clone(), sl)), func: Some(fdisp.clone()), label: None });
+        auto_lines.push(OutLine { text: "#[verifier::exec_allows_no_decreases_clause] #[verifier::loop_isolation(false)]".into(), src: None, func: Some(fdisp.clone()), label: None });
+        auto_lines.push(OutLine { text: if retres { format!("pub fn {}(w: &mut World) -> (ok: bool)", skname) } else { format!("pub fn {}(w: &mut World)", skname) }, src: Some((sp.clone(), sl)), func: Some(fdisp.clone()), label: None });
+        auto_lines.push(OutLine { text: "{".into(), src: None, func: Some(fdisp.clone()), label: None });
+        for l in so.text.lines() { auto_lines.push(OutLine { text: l.to_string(), src: Some((sp.clone(), sl)), func: Some(fdisp.clone()), label: None }); }
+        auto_lines.push(OutLine { text: "}".into(), src: None, func: Some(fdisp.clone()), label: None });
+        auto_funcs.push(json!({"name": fdisp, "source": sp, "src_line": sl, "kind": "skel-auto", "has_contract": false, "external_body": false}));
+    }
+    if !auto_lines.is_empty() {
+        // insert before the tail include (the closing of verus!)
+        let pos = em.lines.iter().rposition(|l| l.text.starts_with("// ---- include lib/tail.rs")).unwrap_or(em.lines.len());
+        let base = pos;
+        for (k, l) in auto_lines.into_iter().enumerate() { em.lines.insert(base + k, l); }
+        for f in auto_funcs { em.functions.push(f); }
     }
     // write output
     let mut text = String::new();
